@@ -133,6 +133,11 @@ fn check(src: &str, which: usize) -> Result<(), Fail> {
     let mut lastpos: i64 = -1;
     for d in diags.iter().filter(|d| d.syntax) {
         if d.span.start > d.span.end || d.span.end > src.len() { return Err(Fail(format!("C06 diagnostic span {:?} outside the source (len {})", d.span, src.len()))); }
+        // a syntax diagnostic points at the current token -- an input token that is not (statically) skipped --
+        // or, when none is left, at the end of the input (every token of this harness is one character)
+        let at_end = d.span == (src.len()..src.len());
+        let at_tok = d.span.end == d.span.start + 1 && d.span.start < toks.len() && !is_skip(toks[d.span.start]);
+        if !(at_end || at_tok) { return Err(Fail(format!("C06 diagnostic span {:?} is neither the span of a non-skipped input token nor the end of the input (len {})", d.span, src.len()))); }
         let p = d.span.start as i64;
         if p <= lastpos && !(p == lastpos && false) { return Err(Fail(format!("C06 diagnostic at {} does not lie after the previous one at {}", p, lastpos))); }
         lastpos = p;
